@@ -82,6 +82,8 @@ def nelder_mead(
     # Evaluate all vertices
     values = [evaluate(v) for v in simplex]
 
+    iteration = 0  # stays 0 when max_iter is 0 (the loop body never runs)
+
     for iteration in range(1, max_iter + 1):
         # Sort vertices by objective value (best first)
         order = sorted(range(n + 1), key=lambda i: values[i])
